@@ -73,7 +73,8 @@ disk_header_ignore = uf("disk_header_ignore", [PathT, Str], Bool, concrete=_nati
 
 
 # ------------------------------------------------------------------ line-level specification
-def names_rule_in_line(code, rule_id):
+@opaque
+def names_rule_in_line(code: Str, rule_id: Str) -> Bool:
     """Same-line directive text `code` names rule_id: `ignore[a,b]`, `ignore a b`, or `ignore-all`."""
     if re_search_i(P_LINE_BR, code):
         return bracket_rules_match(re_group_i(P_LINE_BR, code, 1), rule_id)
@@ -82,7 +83,8 @@ def names_rule_in_line(code, rule_id):
     return "ignore-all" in code.lower()
 
 
-def names_rule_in_file_directive(line, rule_id):
+@opaque
+def names_rule_in_file_directive(line: Str, rule_id: Str) -> Bool:
     """`ignore-file[a,b]` or `ignore-file a b` names rule_id."""
     if re_search_i(P_FILE_BR, line):
         return bracket_rules_match(re_group_i(P_FILE_BR, line, 1), rule_id)
@@ -91,7 +93,8 @@ def names_rule_in_file_directive(line, rule_id):
     return False
 
 
-def next_line_names_rule(prev_line, rule_id):
+@opaque
+def next_line_names_rule(prev_line: Str, rule_id: Str) -> Bool:
     """`ignore-next-line[a,b]` names rule_id; a bare `ignore-next-line` names every rule."""
     if re_search(P_NEXT_BR, prev_line):
         return bracket_rules_match(re_group(P_NEXT_BR, prev_line, 1), rule_id)
@@ -111,22 +114,26 @@ def file_marker(line):
     return "# thailint: ignore-file" in line.lower() or "# design-lint: ignore-file" in line.lower()
 
 
-def header_line_ignores(line, rule_id):
+@opaque
+def header_line_ignores(line: Str, rule_id: Opt(Str)) -> Bool:
     """One header line suppresses rule_id (rule_id None/"" = any rule: only a bare `ignore-file` counts)."""
     return file_marker(line) and (names_rule_in_file_directive(line, rule_id) if rule_id else "ignore-file[" not in line)
 
 
-def header_ignores(file_content, rule_id):
+@opaque
+def header_ignores(file_content: Str, rule_id: Opt(Str)) -> Bool:
     return any(header_line_ignores(line, rule_id) for line in file_content.splitlines()[:HEADER_LINES])
 
 
-def same_line_ignores(lines, vline, rule_id):
+@opaque
+def same_line_ignores(lines: SeqOf(Str), vline: Int, rule_id: Str) -> Bool:
     """Exactly line vline (1-based), safe for any integer."""
     return 1 <= vline <= len(lines) and line_marker(lines[vline - 1]) \
         and (names_rule_in_line(lines[vline - 1], rule_id) if rule_id else True)
 
 
-def prev_line_ignores(lines, vline, rule_id):
+@opaque
+def prev_line_ignores(lines: SeqOf(Str), vline: Int, rule_id: Str) -> Bool:
     """Exactly line vline-1."""
     return 2 <= vline <= len(lines) + 1 and next_line_marker(lines[vline - 2]) \
         and next_line_names_rule(lines[vline - 2], rule_id)
@@ -174,11 +181,13 @@ def enclosed(rest: SeqOf(Str), i: Int, in_block: Bool, rules: SeqOf(Str), vline:
     return enclosed(rest[1:], i + 1, in_block, rules, vline, rule_id)
 
 
-def block_ignores(lines, vline, rule_id):
+@opaque
+def block_ignores(lines: SeqOf(Str), vline: Int, rule_id: Str) -> Bool:
     return 0 < vline <= len(lines) and block_scan(lines, 1, False, [], vline, rule_id)
 
 
-def content_ignores(file_content, vline, rule_id):
+@opaque
+def content_ignores(file_content: Str, vline: Int, rule_id: Str) -> Bool:
     return (block_ignores(file_content.splitlines(), vline, rule_id)
             or prev_line_ignores(file_content.splitlines(), vline, rule_id)
             or same_line_ignores(file_content.splitlines(), vline, rule_id))
@@ -194,7 +203,7 @@ class IsValidLineRange:
 @contract(IG + "_BlockState.__init__", props=["C04"], types=dict(self=BlockStateT), modifies=["self.in_block", "self.rules"])
 class BlockStateInit:
     def ensures(self):
-        return (not self.in_block) and len(self.rules) == 0
+        return (not self.in_block) and self.rules == []
 
 
 @contract(IG + "_parse_ignore_start_rules", props=["C04"], types=dict(line=Str), returns=SeqOf(Str),
@@ -213,7 +222,7 @@ class HandleBlockEnd:
         return True if (old.state.in_block and line_num > violation.line and rmv(old.state.rules, violation.rule_id)) else None
 
     def ensures_state(line_num, violation, state, old, result):
-        return (implies(result is None, (not state.in_block) and len(state.rules) == 0)
+        return (implies(result is None, (not state.in_block) and state.rules == [])
                 and implies(result is not None, state.in_block == old.state.in_block and state.rules == old.state.rules))
 
 
@@ -231,7 +240,7 @@ class ProcessBlockLine:
         return implies((not is_start(line)) and is_end(line),
                        (result == (True if (old.state.in_block and line_num > violation.line
                                             and rmv(old.state.rules, violation.rule_id)) else None))
-                       and implies(result is None, (not state.in_block) and len(state.rules) == 0))
+                       and implies(result is None, (not state.in_block) and state.rules == []))
 
     def ensures_plain(line, line_num, violation, state, old, result):
         return implies((not is_start(line)) and (not is_end(line)),
@@ -248,6 +257,9 @@ class ProcessBlockLine:
           types=dict(lines=SeqOf(Str), violation=ViolationT, state=BlockStateT, result=Opt(Bool), i=Int, line=Str),
           returns=Bool)
 class CheckBlockIgnore:
+    def reveals(lines, violation):
+        return reveal(block_ignores, lines, violation.line, violation.rule_id)
+
     def value(lines, violation):
         return block_ignores(lines, violation.line, violation.rule_id)
 
@@ -266,6 +278,9 @@ class GetPrevLine:
 
 @contract(IG + "_matches_ignore_next_line_rules", props=["C04"], types=dict(prev_line=Str, rule_id=Str), returns=Bool)
 class MatchesIgnoreNextLineRules:
+    def reveals(prev_line, rule_id):
+        return reveal(next_line_names_rule, prev_line, rule_id)
+
     def value(prev_line, rule_id):
         return next_line_names_rule(prev_line, rule_id)
 
@@ -273,12 +288,18 @@ class MatchesIgnoreNextLineRules:
 @contract(IG + "_check_prev_line_ignore", props=["C04", "C13"], types=dict(lines=SeqOf(Str), violation=ViolationT),
           returns=Bool)
 class CheckPrevLineIgnore:
+    def reveals(lines, violation):
+        return reveal(prev_line_ignores, lines, violation.line, violation.rule_id)
+
     def value(lines, violation):
         return prev_line_ignores(lines, violation.line, violation.rule_id)
 
 
 @contract(IG + "_check_specific_rule_in_line", props=["C04"], types=dict(code=Str, rule_id=Str), returns=Bool)
 class CheckSpecificRuleInLine:
+    def reveals(code, rule_id):
+        return reveal(names_rule_in_line, code, rule_id)
+
     def value(code, rule_id):
         return names_rule_in_line(code, rule_id)
 
@@ -286,6 +307,9 @@ class CheckSpecificRuleInLine:
 @contract(IG + "_check_current_line_ignore", props=["C04", "C13"], types=dict(lines=SeqOf(Str), violation=ViolationT),
           returns=Bool)
 class CheckCurrentLineIgnore:
+    def reveals(lines, violation):
+        return reveal(same_line_ignores, lines, violation.line, violation.rule_id)
+
     def value(lines, violation):
         return same_line_ignores(lines, violation.line, violation.rule_id)
 
@@ -300,12 +324,18 @@ class HasLineIgnore:
 # ------------------------------------------------------------------ contracts: file level
 @contract(IG + "_check_specific_rule_ignore", props=["C04"], types=dict(line=Str, rule_id=Str), returns=Bool)
 class CheckSpecificRuleIgnore:
+    def reveals(line, rule_id):
+        return reveal(names_rule_in_file_directive, line, rule_id)
+
     def value(line, rule_id):
         return names_rule_in_file_directive(line, rule_id)
 
 
 @contract(IG + "_check_line_for_ignore", props=["C04"], types=dict(line=Str, rule_id=Opt(Str)), returns=Bool)
 class CheckLineForIgnore:
+    def reveals(line, rule_id):
+        return reveal(header_line_ignores, line, rule_id)
+
     def value(line, rule_id):
         return header_line_ignores(line, rule_id)
 
@@ -313,6 +343,9 @@ class CheckLineForIgnore:
 @contract(IG + "_has_file_ignore_in_content", props=["C04"], types=dict(file_content=Str, rule_id=Opt(Str), lines=SeqOf(Str)),
           returns=Bool)
 class HasFileIgnoreInContent:
+    def reveals(file_content, rule_id):
+        return reveal(header_ignores, file_content, rule_id)
+
     def value(file_content, rule_id):
         return header_ignores(file_content, rule_id)
 
@@ -320,5 +353,199 @@ class HasFileIgnoreInContent:
 @contract(IG + "_is_ignored_in_content", props=["C04"], types=dict(file_content=Str, violation=ViolationT, lines=SeqOf(Str)),
           returns=Bool)
 class IsIgnoredInContent:
+    def reveals(file_content, violation):
+        return reveal(content_ignores, file_content, violation.line, violation.rule_id)
+
     def value(file_content, violation):
         return content_ignores(file_content, violation.line, violation.rule_id)
+
+
+# ------------------------------------------------------------------ contracts: the parser's entry points
+from contracts.c14_collect import ign_now, ign_fresh, cache_coherent, cache_after  # noqa: E402  (is_ignored is contracted there)
+
+
+def rid_or_empty(rule_id):
+    return rule_id if rule_id is not None else ""
+
+
+@contract(IG + "IgnoreDirectiveParser.has_file_ignore", props=["C04"],
+          types=dict(self=ParserT, file_path=PathT, rule_id=Opt(Str)), returns=Bool,
+          assumed="reads the file from disk (I/O): the verdict of the on-disk header scan is the uninterpreted "
+                  "disk_header_ignore(path, rule_id); the same scan on the in-memory content "
+                  "(_has_file_ignore_in_content) is verified")
+class HasFileIgnore:
+    def value(file_path, rule_id):
+        return disk_header_ignore(file_path, rid_or_empty(rule_id))
+
+
+def file_level(cache, root, pats, p, content, rule_id):
+    """Repository pattern (memoised), or ignore-file header in the content, or in the file on disk."""
+    return ign_now(cache, root, pats, p) or header_ignores(content, rule_id) or disk_header_ignore(p, rule_id)
+
+
+@contract(IG + "IgnoreDirectiveParser._is_ignored_at_file_level", props=["C04"],
+          types=dict(self=ParserT, file_path=PathT, rule_id=Str, file_content=Str), returns=Bool,
+          modifies=["self._ignore_cache"])
+class IsIgnoredAtFileLevel:
+    def value(self, file_path, rule_id, file_content, old):
+        return file_level(old.self._ignore_cache, self.project_root, self.repo_patterns, file_path, file_content, rule_id)
+
+    def ensures_cache(self, file_path, old):
+        return self._ignore_cache == cache_after(old.self._ignore_cache, self.project_root, self.repo_patterns, file_path)
+
+
+def suppressed(cache, root, pats, file_path, rule_id, line, content):
+    """Property text: the verdict of the shared filter for a violation -- a function of
+    (rule_id, line, content, path) and of the repository patterns only."""
+    return file_level(cache, root, pats, path_of_str(file_path), content, rule_id) or content_ignores(content, line, rule_id)
+
+
+@contract(IG + "IgnoreDirectiveParser.should_ignore_violation", props=["C04"],
+          types=dict(self=ParserT, violation=ViolationT, file_content=Str, file_path=PathT), returns=Bool,
+          modifies=["self._ignore_cache"])
+class ShouldIgnoreViolation:
+    def value(self, violation, file_content, old):
+        return suppressed(old.self._ignore_cache, self.project_root, self.repo_patterns, violation.file_path,
+                          violation.rule_id, violation.line, file_content)
+
+    def ensures_repo_pattern_or_directive(self, violation, file_content, old, result):
+        # with a coherent memo entry: repository pattern, or header, or block / previous line / same line
+        return implies(cache_coherent(old.self._ignore_cache, self.project_root, self.repo_patterns, path_of_str(violation.file_path)),
+                       result == (ign_fresh(self.project_root, self.repo_patterns, path_of_str(violation.file_path))
+                                  or header_ignores(file_content, violation.rule_id)
+                                  or disk_header_ignore(path_of_str(violation.file_path), violation.rule_id)
+                                  or content_ignores(file_content, violation.line, violation.rule_id)))
+
+
+# ------------------------------------------------------------------ lemmas: scope of each directive form
+@lemma(props=["C04"], types=dict(lines=SeqOf(Str), v=ViolationT), name="same-line-directive-scope")
+def same_line_scope(lines, v):
+    """A same-line directive acts on exactly its own line: the verdict reads lines[v.line-1] only, is False for
+    line numbers outside the file, and needs the marker AND a spelling naming the rule (or no rule id at all)."""
+    r = call(IG + "_check_current_line_ignore", lines, v)
+    reveal(same_line_ignores, lines, v.line, v.rule_id)
+    if v.line < 1 or v.line > len(lines):
+        return not r
+    return r == (line_marker(lines[v.line - 1]) and (names_rule_in_line(lines[v.line - 1], v.rule_id) if v.rule_id else True))
+
+
+@lemma(props=["C04"], types=dict(lines=SeqOf(Str), v=ViolationT), name="next-line-directive-scope")
+def next_line_scope(lines, v):
+    """ignore-next-line acts on exactly the following line: the verdict reads lines[v.line-2] only."""
+    r = call(IG + "_check_prev_line_ignore", lines, v)
+    reveal(prev_line_ignores, lines, v.line, v.rule_id)
+    if v.line < 2 or v.line > len(lines) + 1:
+        return not r
+    return r == (next_line_marker(lines[v.line - 2]) and next_line_names_rule(lines[v.line - 2], v.rule_id))
+
+
+@lemma(props=["C04"], types=dict(lines=SeqOf(Str), other=SeqOf(Str), v=ViolationT), name="line-directives-ignore-other-lines")
+def line_isolation(lines, other, v):
+    """Changing any line other than v.line (resp. v.line-1) does not change the same-line (resp. next-line) verdict."""
+    if len(lines) != len(other):
+        return True
+    reveal(same_line_ignores, lines, v.line, v.rule_id)
+    reveal(same_line_ignores, other, v.line, v.rule_id)
+    reveal(prev_line_ignores, lines, v.line, v.rule_id)
+    reveal(prev_line_ignores, other, v.line, v.rule_id)
+    same = implies(1 <= v.line <= len(lines) and lines[v.line - 1] == other[v.line - 1],
+                   call(IG + "_check_current_line_ignore", lines, v) == call(IG + "_check_current_line_ignore", other, v))
+    prev = implies(2 <= v.line <= len(lines) + 1 and lines[v.line - 2] == other[v.line - 2],
+                   call(IG + "_check_prev_line_ignore", lines, v) == call(IG + "_check_prev_line_ignore", other, v))
+    return same and prev
+
+
+@lemma(props=["C04"], types=dict(line=Str, rule_id=Str), name="directive-naming-another-rule-changes-nothing")
+def other_rule_same_line(line, rule_id):
+    """A bracketed same-line / next-line / ignore-file directive none of whose spellings names the rule does not
+    suppress it."""
+    reveal(names_rule_in_line, line, rule_id)
+    reveal(next_line_names_rule, line, rule_id)
+    reveal(names_rule_in_file_directive, line, rule_id)
+    a = implies(re_search_i(P_LINE_BR, line) and not bracket_rules_match(re_group_i(P_LINE_BR, line, 1), rule_id),
+                not call(IG + "_check_specific_rule_in_line", line, rule_id))
+    b = implies(re_search(P_NEXT_BR, line) and not bracket_rules_match(re_group(P_NEXT_BR, line, 1), rule_id),
+                not call(IG + "_matches_ignore_next_line_rules", line, rule_id))
+    c = implies(re_search_i(P_FILE_BR, line) and not bracket_rules_match(re_group_i(P_FILE_BR, line, 1), rule_id),
+                not call(IG + "_check_specific_rule_ignore", line, rule_id))
+    return a and b and c
+
+
+@lemma(props=["C04"], types=dict(c1=Str, c2=Str, rule_id=Str), name="ignore-file-only-in-first-ten-lines")
+def header_only(c1, c2, rule_id):
+    """Two contents with the same first ten lines have the same ignore-file verdict (a directive further down is
+    not a file directive)."""
+    if c1.splitlines()[:10] != c2.splitlines()[:10]:
+        return True
+    reveal(header_ignores, c1, rule_id)
+    reveal(header_ignores, c2, rule_id)
+    return call(IG + "_has_file_ignore_in_content", c1, rule_id) == call(IG + "_has_file_ignore_in_content", c2, rule_id)
+
+
+# ------------------------------------------------------------------ lemmas: block scope
+def not_a_marker_at(rest, i, vline):
+    """The violation's own line (if it is among `rest`, whose first line is line i) is not a block marker comment."""
+    return implies(i <= vline and vline - i < len(rest), (not is_start(rest[vline - i])) and (not is_end(rest[vline - i])))
+
+
+@lemma(props=["C04"], types=dict(rest=SeqOf(Str), i=Int, in_block=Bool, rules=SeqOf(Str), vline=Int, rule_id=Str),
+       name="enclosing-block-silences")
+def enclosed_implies_scan(rest, i, in_block, rules, vline, rule_id):
+    """By induction on the remaining lines: whenever the violation line is enclosed by a block naming its rule
+    (property text), the scanner of _check_block_ignore says `ignored`."""
+    if not not_a_marker_at(rest, i, vline):
+        return True
+    if len(rest) == 0:
+        return implies(enclosed(rest, i, in_block, rules, vline, rule_id), block_scan(rest, i, in_block, rules, vline, rule_id))
+    if is_start(rest[0]):
+        ih(enclosed_implies_scan, rest[1:], i + 1, True, start_rules(rest[0]), vline, rule_id)
+    elif is_end(rest[0]):
+        ih(enclosed_implies_scan, rest[1:], i + 1, False, [], vline, rule_id)
+    else:
+        ih(enclosed_implies_scan, rest[1:], i + 1, in_block, rules, vline, rule_id)
+    return implies(enclosed(rest, i, in_block, rules, vline, rule_id), block_scan(rest, i, in_block, rules, vline, rule_id))
+
+
+@lemma(props=["C04"], types=dict(lines=SeqOf(Str), v=ViolationT), name="block-encloses-violation")
+def block_top(lines, v):
+    """Top-level statement for _check_block_ignore (one direction): enclosed => ignored."""
+    if v.line < 1 or v.line > len(lines) or is_start(lines[v.line - 1]) or is_end(lines[v.line - 1]):
+        return True
+    reveal(block_ignores, lines, v.line, v.rule_id)
+    enclosed_implies_scan(lines, 1, False, [], v.line, v.rule_id)
+    return implies(enclosed(lines, 1, False, [], v.line, v.rule_id), call(IG + "_check_block_ignore", lines, v))
+
+
+@lemma(props=["C04"], types=dict(l1=Str, l2=Str, l3=Str, v=ViolationT), name="block-after-violation-changes-nothing")
+def block_after_violation(l1, l2, l3, v):
+    """Property text: a directive placed outside the scope changes nothing -- a block that starts AFTER the violation
+    line does not silence it. Stated on the smallest shape (violation on line 1 of a three-line file).
+    Expected to FAIL (known finding C04-block-silences-earlier-lines)."""
+    if v.line != 1 or is_start(l1) or is_end(l1):
+        return True
+    reveal(block_ignores, [l1, l2, l3], v.line, v.rule_id)
+    return not call(IG + "_check_block_ignore", [l1, l2, l3], v)
+
+
+@lemma(props=["C04"], types=dict(l1=Str, l2=Str, l3=Str, v=ViolationT), name="block-after-violation-adjusted")
+def block_after_violation_adjusted(l1, l2, l3, v):
+    """Finding-adjusted: on that shape the ONLY way the violation is silenced is a later block (start on line 2, end on
+    line 3) whose rules name it."""
+    if v.line != 1 or is_start(l1) or is_end(l1):
+        return True
+    reveal(block_ignores, [l1, l2, l3], v.line, v.rule_id)
+    return call(IG + "_check_block_ignore", [l1, l2, l3], v) == \
+        (is_start(l2) and (not is_start(l3)) and is_end(l3) and rmv(start_rules(l2), v.rule_id))
+
+
+# ------------------------------------------------------------------ lemma: isolation
+@lemma(props=["C04"], types=dict(s1=ParserT, s2=ParserT, v1=ViolationT, v2=ViolationT, content=Str), name="filter-isolation")
+def isolation(s1, s2, v1, v2, content):
+    """The verdict of the shared filter depends only on (rule_id, line, file content, path) and on the parser's
+    repository patterns -- not on message, column, severity or suggestion, nor on any other violation."""
+    if not (v1.rule_id == v2.rule_id and v1.line == v2.line and v1.file_path == v2.file_path):
+        return True
+    if not (s1.project_root == s2.project_root and s1.repo_patterns == s2.repo_patterns and s1._ignore_cache == s2._ignore_cache):
+        return True
+    return call(IG + "IgnoreDirectiveParser.should_ignore_violation", s1, v1, content) == \
+        call(IG + "IgnoreDirectiveParser.should_ignore_violation", s2, v2, content)
